@@ -2,9 +2,9 @@
    Model: model/Engine.v `do_action` = Process::do_action + Task::update. *)
 From Coq Require Import List Arith ZArith Bool.
 Import ListNotations.
-From Acts.Gen Require Import GenState.
+From Acts.Gen Require Import GenState GenUpdate.
 From Acts.Model Require Import Engine Oracles.
-From Acts.Proofs Require Import C05Proofs C02Core C02Ops FinalProofs.
+From Acts.Proofs Require Import C05Proofs C02Core C02Ops FinalProofs UpdateTable.
 
 (* a rejected complete / submit / skip / remove / abort / error / back / push changes no task, emits
    no message, queues nothing: the engine state is returned as it was, only the result marker is
@@ -50,6 +50,39 @@ Theorem C05_closing_action_is_the_last :
     let e1 := fold_left apply_op ops (do_action e i a opts) in
     st e1 i = s /\ do_action e1 i b opts' = ret_err e1.
 Proof. exact closing_action_is_the_last. Qed.
+(* the tie of the action arms to the source, statically: gen/GenUpdate.v is regenerated from Task::update
+   (acts/src/scheduler/process/task.rs) on every run -- per arm of `match action.event`: whether it begins with
+   the `already completed` rejection before any effect, the state it writes to the act, whose open siblings it
+   closes, its effectful calls in order.  Every action of the model has its arm; the rejection of a closed act
+   is on every arm but cancel (what `admission` does); the state an arm writes is the state the model's action
+   leaves the act in (`closing`); complete / submit / remove are `set_state; next` in both; skip closes the act's
+   own open siblings and error the parent's, with the state of the table.  An arm edited in the source (another
+   state, a dropped or moved guard, another sibling set) changes the table and breaks one of these. *)
+Theorem C05_update_arms_match_source :
+  forall a, exists r, arm_of (ev_name a) = Some r /\ a_event r = ev_name a /\
+    a_guard r = negb (is_cancel a) /\
+    (forall s, a_self r = Some s -> closing a = Some s) /\
+    (a_self r = None -> closing a = None \/ a = AAbort) /\
+    (forall e i cv s, a_calls r = plain_calls -> a_self r = Some s ->
+       exists site, perform e i a cv = ret_ok (next (fuel_of e) cv (set_state site e i s) i)).
+Proof.
+  intros a. destruct (arm_exists a) as (r & Hr & Hn). exists r. split; [exact Hr|]. split; [exact Hn|].
+  split; [exact (guards_match a r Hr)|]. split; [exact (fun s => self_state_match a r s Hr)|].
+  split; [exact (no_self_state a r Hr)|]. exact (fun e i cv s => plain_closers e i a cv r s Hr).
+Qed.
+Theorem C05_skip_and_error_arms_match_source :
+  (forall e i cv r w s s', arm_of n_skip = Some r -> a_sibs r = Some (w, s) -> a_self r = Some s' ->
+     w = n_self /\
+     perform e i ASkip cv = (let e1 := close_open 26 e (siblings e i) s in ret_ok (next (fuel_of e1) cv (set_state 25 e1 i s') i))) /\
+  (forall e i cv c p r w s, arm_of n_error = Some r -> a_sibs r = Some (w, s) -> parent e i = Some p ->
+     w = n_parent /\ a_self r = None /\
+     perform e i (AError (Some c)) cv =
+       (let e1 := close_open 32 e (siblings e p) s in ret_ok (emit_error (fuel_of e1) (set_data (set_err 31 e1 i c) i cv) i))) /\
+  (exists r w s, arm_of n_skip = Some r /\ a_sibs r = Some (w, s)) /\ (exists r w s, arm_of n_error = Some r /\ a_sibs r = Some (w, s)) /\
+  NoDup (map a_event update_arms).
+Proof.
+  split; [exact skip_arm|]. split; [exact error_arm|]. split; [|split; [|exact arms_distinct]]; vm_compute; do 3 eexists; split; reflexivity.
+Qed.
 Theorem C05_runs_satisfy_the_invariant : forall ns c0 ops, J (run ns c0 ops).
 Proof. exact run_J. Qed.
 Example C05_example :
@@ -71,3 +104,5 @@ Print Assumptions C05_terminal_rejects.
 Print Assumptions C05_ended_rejects.
 Print Assumptions C05_closing_action_is_the_last.
 Print Assumptions C05_runs_satisfy_the_invariant.
+Print Assumptions C05_update_arms_match_source.
+Print Assumptions C05_skip_and_error_arms_match_source.
